@@ -69,6 +69,35 @@ def main(repo, _unused=None):
                     lock_kinds.append((cur or "?", k))
     except OSError as e:
         unrec.append("callsite.rs: %s" % e)
+    # where the global max level is published, and how long the guards on the dispatcher list live: the functions of callsite.rs that
+    # call LevelFilter::set_max, and for each guard binding its block depth inside the function (1 = the guard lives to the end of the
+    # function body, so everything the function does -- including rebuild_interest's set_max -- happens under the lock)
+    set_max_fns, guard_depth = [], []
+    try:
+        cur, depth = None, 0
+        src_std = open(os.path.join(repo, "tracing-core/src/callsite.rs"), encoding="utf-8").read()
+        # the std registry only (the no-std `mod inner` further down has no lock)
+        a = src_std.find('#[cfg(feature = "std")]\nmod inner')
+        b = src_std.find('#[cfg(not(feature = "std"))]\nmod inner')
+        if a < 0 or b < a:
+            unrec.append("callsite.rs: std `mod inner` not found")
+            a, b = 0, len(src_std)
+        for ln in src_std[a:b].split("\n"):
+            code = ln.split("//")[0]
+            m = FN.match(ln)
+            if m:
+                cur, depth = m.group(1), 0
+            if cur is not None:
+                if re.search(r"\bset_max\(", code) and cur not in set_max_fns:
+                    set_max_fns.append(cur)
+                g = re.search(r"let\s+(?:mut\s+)?\w+\s*=\s*REGISTRY\s*\.\s*dispatchers\s*\.\s*(?:read|write)\(\)", code)
+                if g:
+                    guard_depth.append((cur, depth))
+                elif re.search(r"REGISTRY\s*\.\s*dispatchers\s*\.\s*(?:read|write)\(\)", code) and cur != "__verif_lock_state":
+                    guard_depth.append((cur, 0))       # a temporary: dropped at the end of the statement
+                depth += code.count("{") - code.count("}")
+    except OSError as e:
+        unrec.append("callsite.rs: %s" % e)
     # how each function of reload.rs gets at the reloadable value: blocking read / write, or a non-blocking try_*
     reload_locks = []
     try:
@@ -94,7 +123,9 @@ def main(repo, _unused=None):
     out += ["  ].", "", "Definition gen_yield_ids : list nat := [%s]." % "; ".join(str(y) for y in ids), "",
             "Definition gen_push_shape : list string := [%s]." % "; ".join('"%s"' % n for n in shape), "",
             "Definition gen_lock_kinds : list (string * string) := [%s]." % "; ".join('("%s", "%s")' % x for x in lock_kinds), "",
-            "Definition gen_reload_locks : list (string * string) := [%s]." % "; ".join('("%s", "%s")' % x for x in reload_locks), ""]
+            "Definition gen_reload_locks : list (string * string) := [%s]." % "; ".join('("%s", "%s")' % x for x in reload_locks), "",
+            "Definition gen_set_max_fns : list string := [%s]." % "; ".join('"%s"' % x for x in set_max_fns), "",
+            "Definition gen_guard_depth : list (string * nat) := [%s]." % "; ".join('("%s", %d)' % x for x in guard_depth), ""]
     return "\n".join(out), unrec
 
 
